@@ -1,1 +1,414 @@
-// verification harness include for state_broadcast (see /verif/DESIGN.md)
+// Included at the end of /repo/src/channel/state_broadcast.rs under cfg(futures_intrusive_verif).
+// State broadcast harnesses: C13 (+ C11 close semantics, C01, C17 parts).
+
+pub(crate) mod verif_state {
+    use super::*;
+    use crate::verif::common::*;
+    use core::mem::ManuallyDrop;
+
+    macro_rules! oracle {
+        ($p:expr, $mask:expr, $cond:expr, $msg:literal) => {
+            if ($p & $mask) != 0 {
+                assert!($cond, $msg);
+            }
+        };
+    }
+
+    pub const K: usize = 3;
+    pub const W_SEND_WAKES_TWO: u32 = 1; // a send with >= 2 registered receivers
+    pub const W_FOLLOWER: u32 = 2; // a receiver fed back the id it got and received a newer state
+    pub const W_CLOSED_LATEST: u32 = 4; // after close a receiver still got the latest state, another one None
+
+    type Chan<M> = GenericStateBroadcastChannel<M, Tag>;
+
+    pub fn hist<M: RawMutex, S: Src>(s: &mut S, _cfg: u32, n: usize, p: u32) -> u32 {
+        let ch = Chan::<M>::new();
+        let (c0a, c0b, c1a, c1b, c2a, c2b) = (
+            WakeCell::new(), WakeCell::new(), WakeCell::new(),
+            WakeCell::new(), WakeCell::new(), WakeCell::new(),
+        );
+        let mut ids = [0u64; K]; // requested id of the current future of the slot
+        let mut f0 = ManuallyDrop::new(ch.receive(StateId(0)));
+        let mut f1 = ManuallyDrop::new(ch.receive(StateId(0)));
+        let mut f2 = ManuallyDrop::new(ch.receive(StateId(0)));
+        // model: publication log
+        let mut c: u64 = 0; // number of published states = latest id
+        let mut latest: u8 = 0;
+        let mut closed = false;
+        let mut next_tag: u8 = 1;
+        let mut alive = [true; K];
+        let mut pending = [false; K];
+        let mut done = [false; K];
+        let mut lw = [0u8; K];
+        let mut snap = [0u32; K];
+        let mut ever = [false; K];
+        let mut fresh = [true; K];
+        let mut got_some_after_close = false;
+        let mut bits = 0u32;
+        let mut step = 0;
+        while step < n && !s.exhausted() {
+            step += 1;
+            let op = s.below(12);
+            if op < 6 {
+                let i = (op / 2) as usize;
+                let w = op % 2;
+                s.assume(!done[i]);
+                s.assume(i == 0 || ever[i - 1]);
+                s.assume(!fresh[i] || w == 0);
+                ever[i] = true;
+                let f = match i { 0 => &mut f0, 1 => &mut f1, _ => &mut f2 };
+                if !alive[i] {
+                    // a new receive; the requested id is one that exists so far (0 = "anything")
+                    let id = s.below(4) as u64;
+                    s.assume(id <= c);
+                    ids[i] = id;
+                    *f = ManuallyDrop::new(ch.receive(StateId(id)));
+                    alive[i] = true;
+                    fresh[i] = true;
+                    oracle!(p, P17, !f.is_terminated(), "C17 state broadcast: fresh receive future reports terminated");
+                }
+                fresh[i] = false;
+                let cell = match (i, w) {
+                    (0, 0) => &c0a, (0, _) => &c0b,
+                    (1, 0) => &c1a, (1, _) => &c1b,
+                    (_, 0) => &c2a, (_, _) => &c2b,
+                };
+                let waker = ManuallyDrop::new(mk_waker(cell));
+                let mut cx = Context::from_waker(&waker);
+                let r = unsafe { Pin::new_unchecked(&mut **f) }.poll(&mut cx);
+                let newer = c > 0 && ids[i] < c;
+                match r {
+                    Poll::Ready(Some((sid, t))) => {
+                        oracle!(p, P13, newer, "C13 state broadcast: receive completed without a state newer than the requested id");
+                        oracle!(p, P13, sid.0 == c && t.0 == latest, "C13 state broadcast: receive did not yield the most recently published state and its id");
+                        oracle!(p, P13, sid > StateId(ids[i]), "C13 state broadcast: returned id is not larger than the requested one");
+                        if ids[i] > 0 { bits |= W_FOLLOWER; }
+                        if closed { got_some_after_close = true; }
+                        core::mem::forget(t);
+                        pending[i] = false;
+                        done[i] = true;
+                    }
+                    Poll::Ready(None) => {
+                        oracle!(p, P13 | P11, closed && !newer, "C13 state broadcast: receive yielded None although the channel is open or a newer state exists");
+                        if got_some_after_close { bits |= W_CLOSED_LATEST; }
+                        pending[i] = false;
+                        done[i] = true;
+                    }
+                    Poll::Pending => {
+                        oracle!(p, P13, !newer && !closed, "C13 state broadcast: receive stays pending although a newer state exists or the channel is closed");
+                        pending[i] = true;
+                        lw[i] = w;
+                        snap[i] = cell.n();
+                    }
+                }
+            } else if op < 9 {
+                let i = (op - 6) as usize;
+                s.assume(alive[i] && (pending[i] || done[i]));
+                let f = match i { 0 => &mut f0, 1 => &mut f1, _ => &mut f2 };
+                unsafe { ManuallyDrop::drop(f) };
+                alive[i] = false;
+                pending[i] = false;
+                done[i] = false;
+            } else if op == 9 {
+                s.assume(next_tag < 6);
+                let tag = next_tag;
+                next_tag += 1;
+                let np = pending[0] as u8 + pending[1] as u8 + pending[2] as u8;
+                match ch.send(Tag(tag)) {
+                    Ok(()) => {
+                        oracle!(p, P13 | P11, !closed, "C11 state broadcast: a send after close was accepted");
+                        c += 1;
+                        latest = tag;
+                        if np >= 2 { bits |= W_SEND_WAKES_TWO; }
+                    }
+                    Err(e) => {
+                        oracle!(p, P13 | P11, closed, "C13 state broadcast: a send on an open channel was rejected");
+                        oracle!(p, P13 | P11, (e.0).0 == tag, "C11 state broadcast: a rejected send did not hand back the caller's own value");
+                        core::mem::forget(e);
+                    }
+                }
+            } else if op == 10 {
+                let st = ch.close();
+                oracle!(p, P11 | P13, st.is_newly_closed() == !closed, "C11 state broadcast: close() status is not NewlyClosed-once / AlreadyClosed-afterwards");
+                closed = true;
+            } else {
+                let id = s.below(4) as u64;
+                s.assume(id <= c);
+                let newer = c > 0 && id < c;
+                match ch.try_receive(StateId(id)) {
+                    Some((sid, t)) => {
+                        oracle!(p, P13, newer && sid.0 == c && t.0 == latest, "C13 state broadcast: try_receive yielded something else than the latest state newer than the id");
+                        core::mem::forget(t);
+                    }
+                    None => {
+                        oracle!(p, P13, !newer, "C13 state broadcast: try_receive yielded None although a newer state exists");
+                    }
+                }
+            }
+            // a pending receiver for which something newer exists, or after close: woken through its latest waker
+            let now = [c0a.n(), c0b.n(), c1a.n(), c1b.n(), c2a.n(), c2b.n()];
+            let mut i = 0;
+            while i < K {
+                if pending[i] && (closed || (c > 0 && ids[i] < c)) {
+                    oracle!(p, P13 | P11, now[2 * i + lw[i] as usize] > snap[i],
+                        "C13 state broadcast: a waiting receiver was not woken by the send/close through its latest waker");
+                }
+                i += 1;
+            }
+            if (p & P17) != 0 {
+                if alive[0] { assert!(f0.is_terminated() == done[0], "C17 state broadcast: is_terminated() differs from 'completed'"); }
+                if alive[1] { assert!(f1.is_terminated() == done[1], "C17 state broadcast: is_terminated() differs from 'completed'"); }
+                if alive[2] { assert!(f2.is_terminated() == done[2], "C17 state broadcast: is_terminated() differs from 'completed'"); }
+            }
+        }
+        s.reached(bits);
+        bits
+    }
+
+    #[no_mangle]
+    pub fn fi_verif_replay_state(name: &str, cfg: u32, p: u32, s: &mut ScriptSrc<'_>) -> bool {
+        match name {
+            "state_hist_noop" => { hist::<NoopLock, _>(s, cfg, 64, p); }
+            "state_hist_check" => { hist::<CheckLock, _>(s, cfg, 64, p); }
+            _ => return false,
+        }
+        true
+    }
+
+    // =====================================================================
+    // E-STEP with a full-range symbolic state id. Inv: queue members = {Registered};
+    // Registered => !closed and nothing newer than its requested id exists and stored waker = latest;
+    // value.is_some() <=> state_id > 0.
+    // =====================================================================
+    #[cfg(kani)]
+    pub mod step {
+        use super::*;
+        type Node = ListNode<RecvWaitQueueEntry>;
+        // 0 Unregistered(live), 1 Registered, 2 Terminated
+        fn any_st() -> u8 { let x: u8 = kani::any(); kani::assume(x < 3); x }
+        fn obs<M>(f: &StateReceiveFuture<'_, M, Tag>) -> u8 {
+            match (&f.wait_node.state, f.channel.is_some()) {
+                (_, false) => 2,
+                (RecvPollState::Unregistered, true) => 0,
+                (RecvPollState::Registered, true) => 1,
+            }
+        }
+        pub fn run<M: RawMutex>(p: u32) {
+            let ch = Chan::<M>::new();
+            let (c0a, c0b, c1a, c1b, c2a, c2b) = (
+                WakeCell::new(), WakeCell::new(), WakeCell::new(),
+                WakeCell::new(), WakeCell::new(), WakeCell::new(),
+            );
+            let sid: u64 = kani::any();
+            let closed: bool = kani::any();
+            let rid: [u64; 3] = [kani::any(), kani::any(), kani::any()];
+            let mut f0 = ManuallyDrop::new(ch.receive(StateId(rid[0])));
+            let mut f1 = ManuallyDrop::new(ch.receive(StateId(rid[1])));
+            let mut f2 = ManuallyDrop::new(ch.receive(StateId(rid[2])));
+            let st = [any_st(), any_st(), any_st()];
+            let lw: [bool; 3] = [kani::any(), kani::any(), kani::any()];
+            let r: [u8; 3] = [kani::any(), kani::any(), kani::any()];
+            kani::assume(r[0] < 3 && r[1] < 3 && r[2] < 3 && r[0] != r[1] && r[1] != r[2] && r[0] != r[2]);
+            let mut i = 0;
+            while i < 3 {
+                if st[i] == 1 { kani::assume(!closed && !(sid > 0 && rid[i] < sid)); }
+                i += 1;
+            }
+            macro_rules! setup {
+                ($f:ident, $i:expr, $ca:expr, $cb:expr) => {
+                    match st[$i] {
+                        0 => {}
+                        1 => { $f.wait_node.state = RecvPollState::Registered; $f.wait_node.task = Some(if lw[$i] { mk_waker(&$ca) } else { mk_waker(&$cb) }); }
+                        _ => { $f.channel = None; }
+                    }
+                };
+            }
+            setup!(f0, 0, c0a, c0b);
+            setup!(f1, 1, c1a, c1b);
+            setup!(f2, 2, c2a, c2b);
+            {
+                let mut g = ch.inner.lock();
+                g.is_closed = closed;
+                g.state_id = StateId(sid);
+                if sid > 0 { g.value = Some(Tag(7)); }
+                let mut k = 0u8;
+                while k < 3 {
+                    unsafe {
+                        if st[0] == 1 && r[0] == k { g.waiters.add_front(&mut f0.wait_node); }
+                        if st[1] == 1 && r[1] == k { g.waiters.add_front(&mut f1.wait_node); }
+                        if st[2] == 1 && r[2] == k { g.waiters.add_front(&mut f2.wait_node); }
+                    }
+                    k += 1;
+                }
+            }
+            let mut alive = [true; 3];
+            let mut polled = 3usize;
+            let mut polled_w = false;
+            let mut sid2 = sid;
+            let mut closed2 = closed;
+            let mut val2: u8 = 7;
+            let t: usize = kani::any();
+            kani::assume(t < 3);
+            let cls: u8 = kani::any();
+            kani::assume(cls < 5);
+            if cls == 0 {
+                kani::assume(st[t] != 2);
+                let f = match t { 0 => &mut f0, 1 => &mut f1, _ => &mut f2 };
+                let wa: bool = kani::any();
+                let cell = match (t, wa) {
+                    (0, true) => &c0a, (0, false) => &c0b,
+                    (1, true) => &c1a, (1, false) => &c1b,
+                    (_, true) => &c2a, (_, false) => &c2b,
+                };
+                let w = ManuallyDrop::new(mk_waker(cell));
+                let mut cx = Context::from_waker(&w);
+                let res = unsafe { Pin::new_unchecked(&mut **f) }.poll(&mut cx);
+                polled = t;
+                polled_w = wa;
+                let newer = sid > 0 && rid[t] < sid;
+                match res {
+                    Poll::Ready(Some((got, v))) => {
+                        oracle!(p, P13, newer && got.0 == sid && v.0 == 7 && got.0 > rid[t], "C13 state broadcast step: receive yielded something else than the latest state newer than the requested id");
+                        core::mem::forget(v);
+                    }
+                    Poll::Ready(None) => { oracle!(p, P13 | P11, closed && !newer, "C13 state broadcast step: receive yielded None although open or a newer state exists"); }
+                    Poll::Pending => { oracle!(p, P13, !newer && !closed, "C13 state broadcast step: receive pending although a newer state exists or closed"); }
+                }
+            } else if cls == 1 {
+                let f = match t { 0 => &mut f0, 1 => &mut f1, _ => &mut f2 };
+                unsafe { ManuallyDrop::drop(f) };
+                alive[t] = false;
+            } else if cls == 2 {
+                match ch.send(Tag(3)) {
+                    Ok(()) => {
+                        oracle!(p, P13 | P11, !closed && sid != u64::MAX, "C13 state broadcast step: send accepted on a closed channel or at the end of the id space");
+                        sid2 = sid.wrapping_add(1);
+                        val2 = 3;
+                    }
+                    Err(e) => {
+                        oracle!(p, P13 | P11, (closed || sid == u64::MAX) && (e.0).0 == 3, "C13 state broadcast step: send rejected on an open channel, or the value was not handed back");
+                        core::mem::forget(e);
+                    }
+                }
+            } else if cls == 3 {
+                let stt = ch.close();
+                oracle!(p, P11 | P13, stt.is_newly_closed() == !closed, "C11 state broadcast step: close() status wrong");
+                closed2 = true;
+            } else {
+                let id: u64 = kani::any();
+                let newer = sid > 0 && id < sid;
+                match ch.try_receive(StateId(id)) {
+                    Some((got, v)) => {
+                        oracle!(p, P13, newer && got.0 == sid && v.0 == 7, "C13 state broadcast step: try_receive yielded something else than the latest newer state");
+                        core::mem::forget(v);
+                    }
+                    None => { oracle!(p, P13, !newer, "C13 state broadcast step: try_receive yielded None although a newer state exists"); }
+                }
+            }
+            let t2 = [obs(&f0), obs(&f1), obs(&f2)];
+            let cells_a = [&c0a, &c1a, &c2a];
+            let cells_b = [&c0b, &c1b, &c2b];
+            {
+                let g = ch.inner.lock();
+                oracle!(p, P13, g.state_id.0 == sid2 && sid2 >= sid, "C13 state broadcast step: state id did not advance by exactly one successful send (or wrapped)");
+                oracle!(p, P13 | P11, g.is_closed == closed2, "C11 state broadcast step: closed flag differs from the model");
+                oracle!(p, P13, g.value.is_some() == (sid2 > 0), "C13 state broadcast step: value presence differs from 'something was published'");
+                if let Some(v) = &g.value { oracle!(p, P13, v.0 == val2, "C13 state broadcast step: stored value is not the latest published one"); }
+            }
+            i = 0;
+            while i < 3 {
+                if alive[i] {
+                    if t2[i] == 1 {
+                        oracle!(p, P13 | P11, !closed2 && !(sid2 > 0 && rid[i] < sid2), "C13 state broadcast step: a receiver stays registered although a newer state exists or the channel is closed");
+                    }
+                    if (cls == 2 && sid2 != sid || cls == 3 && !closed) && st[i] == 1 {
+                        let c = if lw[i] { cells_a[i] } else { cells_b[i] };
+                        oracle!(p, P13 | P11, c.n() == 1, "C13 state broadcast step: send/close did not wake a registered receiver through its latest waker");
+                    }
+                }
+                i += 1;
+            }
+            if (p & P01) != 0 {
+                let g = ch.inner.lock();
+                let nodes: [*const Node; 3] = [&f0.wait_node, &f1.wait_node, &f2.wait_node];
+                let len = g.waiters.verif_len_checked(3);
+                assert!(len.is_some(), "C01 state broadcast step: wait queue links are inconsistent");
+                let mut cnt = 0usize;
+                i = 0;
+                while i < 3 {
+                    let should = alive[i] && t2[i] == 1;
+                    let pos = g.waiters.verif_pos_from_tail(nodes[i], 3);
+                    assert!(pos.is_some() == should, "C01 state broadcast step: wait queue membership differs from {alive and registered}");
+                    let nd = unsafe { &*nodes[i] };
+                    if !should { assert!(nd.verif_unlinked(), "C01 state broadcast step: a future outside the queue still carries links"); }
+                    if should {
+                        cnt += 1;
+                        let lwc: &WakeCell = if i == polled { if polled_w { cells_a[i] } else { cells_b[i] } }
+                                             else if lw[i] { cells_a[i] } else { cells_b[i] };
+                        let ok = match &nd.task { Some(w) => w.will_wake(&ManuallyDrop::new(mk_waker(lwc))), None => false };
+                        assert!(ok, "C01 state broadcast step: registered future does not store the waker of its latest poll");
+                    }
+                    i += 1;
+                }
+                assert!(len == Some(cnt), "C01 state broadcast step: wait queue holds a node that is not a live registered future");
+            }
+            if (p & P17) != 0 {
+                if alive[0] { assert!(f0.is_terminated() == (t2[0] == 2), "C17 state broadcast step: is_terminated() differs from 'completed'"); }
+                if alive[1] { assert!(f1.is_terminated() == (t2[1] == 2), "C17 state broadcast step: is_terminated() differs from 'completed'"); }
+                if alive[2] { assert!(f2.is_terminated() == (t2[2] == 2), "C17 state broadcast step: is_terminated() differs from 'completed'"); }
+            }
+            kani::cover!(cls == 2 && sid2 != sid && st[0] == 1 && st[1] == 1, "W state step: send with two registered receivers");
+            kani::cover!(cls == 2 && sid == u64::MAX, "W state step: send at the end of the id space");
+            core::mem::forget(ch);
+        }
+    }
+
+    #[cfg(kani)]
+    mod proofs {
+        use super::*;
+        macro_rules! hist_proof {
+            ($name:ident, $lock:ty, $n:expr, $p:expr, $unw:expr) => {
+                #[kani::proof]
+                #[kani::unwind($unw)]
+                fn $name() {
+                    let bits = hist::<$lock, _>(&mut KaniSrc, 0, $n, $p);
+                    kani::cover!(bits & W_FOLLOWER != 0, "W follower received a newer state");
+                }
+            };
+        }
+        hist_proof!(hist_c13_n5, NoopLock, 5, P13, 7);
+        hist_proof!(hist_c13_n6, NoopLock, 6, P13, 8);
+        hist_proof!(hist_c13_n7, NoopLock, 7, P13, 9);
+        hist_proof!(hist_c13_n8, NoopLock, 8, P13, 10);
+        hist_proof!(hist_c13_n6_check, CheckLock, 6, P13, 8);
+        hist_proof!(hist_c11_n5, NoopLock, 5, P11, 7);
+        hist_proof!(hist_c11_n7, NoopLock, 7, P11, 9);
+        hist_proof!(hist_c17_n5, NoopLock, 5, P17, 7);
+        hist_proof!(hist_c17_n7, NoopLock, 7, P17, 9);
+        hist_proof!(hist_c01_n5, NoopLock, 5, P01, 7);
+        hist_proof!(hist_c01_n5_check, CheckLock, 5, P01, 7);
+
+        #[kani::proof]
+        #[kani::unwind(7)]
+        fn step_c13() { step::run::<NoopLock>(P13) }
+        #[kani::proof]
+        #[kani::unwind(7)]
+        fn step_c11() { step::run::<NoopLock>(P11) }
+        #[kani::proof]
+        #[kani::unwind(7)]
+        fn step_c01() { step::run::<NoopLock>(P01) }
+        #[kani::proof]
+        #[kani::unwind(7)]
+        fn step_c01_check() { step::run::<CheckLock>(P01) }
+        #[kani::proof]
+        #[kani::unwind(7)]
+        fn step_c17() { step::run::<NoopLock>(P17) }
+
+        #[kani::proof]
+        #[kani::unwind(8)]
+        fn witness_follower_n6() {
+            let bits = hist::<NoopLock, _>(&mut KaniSrc, 0, 6, 0);
+            assert!(bits & (W_FOLLOWER | W_SEND_WAKES_TWO) != (W_FOLLOWER | W_SEND_WAKES_TWO), "WITNESS reached");
+        }
+    }
+}
